@@ -199,6 +199,17 @@ func ValidateSignatureValues(v byte, r, s *big.Int) bool {
 	return r.Cmp(secp256k1_N) < 0 && s.Cmp(secp256k1_N) < 0 && (v == 0 || v == 1)
 }
 
+// ValidateSignature tests a signature in [R || S || V] format with ValidateSignatureValues. The public key recover functions accept
+// both (r, s, v) and (r, n-s, v^1). Who identifies data or counts signers by signatures has to refuse the second form
+func ValidateSignature(sig []byte) bool {
+	if len(sig) != 65 {
+		return false
+	}
+	r := new(big.Int).SetBytes(sig[:32])
+	s := new(big.Int).SetBytes(sig[32:64])
+	return ValidateSignatureValues(sig[64], r, s)
+}
+
 func PubkeyToAddress(p ecdsa.PublicKey) common.Address {
 	pubBytes := FromECDSAPub(&p)
 	return PubToAddress(pubBytes)
